@@ -59,6 +59,15 @@ class EFLRSetsDict(defaultdict):
         # kept apart, '' and None would give two sets of the same type and (no) name in one logical file
         set_name = set_name or None
 
+        # sets without items are leftovers of failed creations (a set is only ever made for an item about to be added);
+        # they are dropped, so that a set - and, if none is left, its type - takes its place in the file when the first
+        # item is really added to it, not when an attempt failed
+        sets_of_type = self.get(eflr_set_type, {})
+        for leftover_name in [name for name, eflr_set in sets_of_type.items() if not eflr_set.n_items]:
+            del sets_of_type[leftover_name]
+        if eflr_set_type in self and not sets_of_type:
+            del self[eflr_set_type]
+
         # dict mapping set names on EFLRSet (subclass) instances
         eflr_set_dict: dict[Union[str, None], AnyEFLRSet] = self[eflr_set_type]
 
